@@ -76,6 +76,8 @@ pub fn explore(opts: &Opts) -> Explored {
             let mut cases: Vec<(OpK, u8)> = maps.clone();
             for k in 0..=d.len() {
                 cases.push((OpK::Sum(k), 1));
+                // positive values whose sums overflow: every order gives +inf, never NaN
+                cases.push((OpK::Sum(k), 7));
             }
             for t in shapes_with_numel(n, 4) {
                 cases.push((OpK::Reshape(t), 1));
@@ -102,6 +104,7 @@ pub fn explore(opts: &Opts) -> Explored {
                         let tiny = if IS_F32 { [1.0e-3, 1.0e-7, 0.25, 1.0e-12, 1.0e-20, 3.0e-30, 0.9990234375, 1.0e-36] } else { [1.0e-3, 1.0e-7, 0.25, 1.0e-12, 1.0e-17, 3.0e-100, 0.9990234375, 1.0e-300] };
                         (0..n).map(|i| tiny[(i + var as usize) % tiny.len()]).collect()
                     }
+                    7 => vals_overflow(n, 0, 1),
                     5 => {
                         // last-dimension rows at very different levels (each exponential still finite)
                         let last = *d.last().unwrap();
@@ -117,7 +120,7 @@ pub fn explore(opts: &Opts) -> Explored {
                 // reciprocal needs non-zero inputs
                 let v: Vec<f64> = if matches!(op, OpK::Recip) { v.iter().map(|x| if *x == 0.0 { 1.25 } else { *x }).collect() } else { v };
                 let rt = T::from_f64(d.clone(), &v);
-                let expect = apply_ref(op, &[&rt]);
+                let expect = if *kind == 7 { apply_ref_raw(op, &[&rt]) } else { apply_ref(op, &[&rt]) };
                 if let Err(RErr::Domain) | Err(RErr::Unspecified) = expect {
                     l.count("skipped_domain");
                     continue;
@@ -146,7 +149,7 @@ pub fn explore(opts: &Opts) -> Explored {
                         l.outcome(digest_vals(dd, vv));
                         if dd != &r.dims {
                             l.violation(sub, case(), format!("dimensions {:?}, reference {:?}", dd, r.dims));
-                        } else if let Err(e) = cmp_slice(vv, &r.x, Part::Value) {
+                        } else if let Err(e) = if *kind == 7 { cmp_slice_inf(vv, &r.x, Part::Value) } else { cmp_slice(vv, &r.x, Part::Value) } {
                             l.violation(sub, case(), e);
                         } else if matches!(op, OpK::Softmax) {
                             let last = *dd.last().unwrap();
@@ -161,6 +164,27 @@ pub fn explore(opts: &Opts) -> Explored {
                     }
                 }
                 l.sample(&case);
+            }
+            // sum_all of positive values whose total overflows
+            {
+                let case = || format!("sum_all on {} overflowing val={}", fmt_dims(d), var);
+                if l.want(&case) {
+                    let v = vals_overflow(n, 0, 1);
+                    let a = arr(d, &v);
+                    let r = T::from_f64(d.clone(), &v).sum(d.len()).unwrap();
+                    let got = run_catch(|| a.sum_all());
+                    l.transitions += 1;
+                    l.validated += 1;
+                    match got {
+                        Err(msg) => l.violation("sum_all", case(), format!("panicked: {}", msg)),
+                        Ok(s) => {
+                            l.outcome(digest_vals(&[1], &[s as Float]));
+                            if let Err(e) = cmp_slice_inf(&[s], &r.x, Part::Value) {
+                                l.violation("sum_all", case(), e);
+                            }
+                        }
+                    }
+                }
             }
             // sum_all
             {
@@ -185,6 +209,50 @@ pub fn explore(opts: &Opts) -> Explored {
             }
         }
     });
+    // powf for scalar parameters far outside the small ones above: whole exponents beyond the
+    // range of 32-bit integers, fractional and negative ones, on bases next to 1 (finite powers) and
+    // away from it (powers that overflow or vanish). The oracle is the scalar function of the same
+    // float type.
+    let mut local = local;
+    if !IS_F32 {
+        let l = &mut local;
+        let bases: Vec<Float> = vec![1.0 + (2.0 as Float).powi(-32), 1.0 - (2.0 as Float).powi(-33), 1.000000001, 0.999999999, 2.0, 0.5, 1.0];
+        let exps: Vec<Float> = vec![3.0e9, 4294967296.0, -4.0e9, 2147483648.0, -2147483649.0, 1.0e10, 9007199254740992.0, 2147483647.0, 0.1, -0.3, 1.0 / 3.0, 7.0, -5.0, 10.0];
+        for e in &exps {
+            let case = || format!("powf({:e}) on bases next to and away from 1", e);
+            if !l.want(&case) {
+                continue;
+            }
+            l.states += 1;
+            for dims in [vec![bases.len()], vec![1, bases.len()], vec![bases.len(), 1]] {
+                l.transitions += 1;
+                l.validated += 1;
+                let a = corgi::array::Array::from((dims.clone(), bases.clone()));
+                let e2 = *e;
+                match run_catch(move || {
+                    let r = a.powf(e2);
+                    (r.dimensions().to_vec(), r.values().to_vec())
+                }) {
+                    Err(m) => l.violation("map", case(), format!("panicked: {}", m)),
+                    Ok((dd, vv)) => {
+                        l.outcome(digest_vals(&dd, &vv));
+                        if dd != dims {
+                            l.violation("map", case(), format!("dimensions {:?}, expected {:?}", dd, dims));
+                            continue;
+                        }
+                        for (b, got) in bases.iter().zip(&vv) {
+                            let want = b.powf(*e);
+                            let ok = if want.is_infinite() || want == 0.0 { *got == want } else { (*got - want).abs() <= 1.0e-12 * want.abs() };
+                            if !ok {
+                                l.violation("map", case(), format!("powf of {:?}: got {:?}, the scalar function gives {:?}", b, got, want));
+                                break;
+                            }
+                        }
+                    }
+                }
+            }
+        }
+    }
     Explored {
         local,
         bounds: json!({"max_rank": rank, "max_dim": dim, "shapes": sh.len(), "sum_k": "0..rank", "reshape_targets": "every shape of rank<=4 with the same element count, plus four targets with a different count (must be refused)",
